@@ -1476,6 +1476,21 @@ func (w *world) oracleStep(o *stepOut, desc interface{}) {
 	}
 }
 
+// refusalClass: histogram only (error strings are never compared with the model)
+func refusalClass(info string) string {
+	for _, c := range [][2]string{
+		{"must be whitelisted", "not-whitelisted"}, {"existing contract", "denomination-already-has-a-contract"}, {"zero supply", "zero-supply"},
+		{"being in use", "address-in-use"}, {"invalid authority address", "authority-not-an-address"}, {"white spaces", "validate-basic:white-space"},
+		{"bank denom metadata", "validate-basic:bank-metadata"}, {"cannot be empty", "empty-field"}, {"decimals", "decimals-out-of-range"},
+		{"cannot be the same", "symbol-equals-denom"}, {"invalid denom", "panic:not-a-denomination"}, {"build:", "transaction-cannot-be-built"},
+	} {
+		if strings.Contains(info, c[0]) {
+			return c[1]
+		}
+	}
+	return "other"
+}
+
 func reflectParamsEqual(a, b cpctypes.Params) bool {
 	if a.ProtocolVersion != b.ProtocolVersion || len(a.WhitelistedDeployers) != len(b.WhitelistedDeployers) {
 		return false
@@ -1755,6 +1770,9 @@ func emitCase(t *testing.T, cases *CasesFile, side *Sidecar, i int, kind string,
 		side.Count("step:" + strings.SplitN(o.label, " ", 2)[0] + ":" + o.res.class)
 		if o.isGenesis {
 			side.Count(o.label + ":" + o.res.class)
+		}
+		if o.res.class != "ok" && o.deployAuth != nil {
+			side.Count("deploy-refused:" + refusalClass(o.res.info))
 		}
 		line := fmt.Sprintf("%s => %s", o.label, o.res.class)
 		if o.res.class != "ok" && len(o.res.info) > 0 {
